@@ -702,8 +702,16 @@ def gen_plan(run_seed, tier='quick', env=None, kinds=None, shape=None):
     if shape is None:
         shape = rng.choice(['api', 'api', 'api', 'cli', 'cli', 'api+api', 'api+cli', 'api+api+cli'])
     tasks = []
+    if shape == 'api+api' and env is None and rng.random() < 0.3:
+        shape = 'direct+direct'
+    elif shape == 'api+cli' and env is None and rng.random() < 0.2:
+        shape = 'direct+cli'
+    shared = rng.choice(['shared_ideal', 'shared_ideal', 'ideal'])
     for kind in shape.split('+'):
-        if kind == 'api':
+        if kind == 'direct':
+            g = shared if rng.random() < 0.8 else rng.choice([None, 'ideal'])
+            tasks.append(gen_direct_task(rng, ground=g, maxops=maxops))
+        elif kind == 'api':
             tasks.append(gen_api_task(rng, maxops=maxops, env=env, kinds=kinds))
         else:
             tasks.append(gen_cli_task(rng, maxops=8 if tier == 'quick' else 14, env=env, kinds=kinds))
@@ -793,3 +801,60 @@ def floor_plans(base_seed, tier='quick'):
                                   disk={'floor.txt': 'STALE ' * 500} if t is cli else {},
                                   tasks=[t], schedule=[0] * len(t['ops'])))
     return plans
+
+
+# ------------------------------------------------- direct (constructor) tasks
+
+def gen_direct_task(rng, ground='shared_ideal', maxops=20):
+    """A model built through the constructors, as the unit tests do.  Two such
+    tasks in one world can share the exported `ideal_ground` Medium object."""
+    L = rng.choice([5.0, 10.0, 16.0])
+    r = rng.choice([0.0005, 0.001, 0.002, 0.01])
+    n = rng.randrange(4, 10)
+    t = rng.choice(['monopole', 'inv_l', 'dipole_above', 'two'])
+    if ground is None:
+        t = rng.choice(['dipole_above', 'vee'])
+    wires = []
+    if t == 'monopole':
+        wires.append([n, 0, 0, 0, 0, 0, L / 2, r])
+    elif t == 'inv_l':
+        wires.append([n, 0, 0, 0, 0, 0, L / 3, r])
+        wires.append([rng.randrange(4, 8), 0, 0, L / 3, L / 2, 0, L / 3, r])
+    elif t == 'dipole_above':
+        wires.append([n, 0, 0, 6.0, L, 0, 6.0, r])
+    elif t == 'vee':
+        wires.append([n, -L / 2, 0, 5.0, 0, 0, 8.0, r])
+        wires.append([rng.randrange(4, 8), 0, 0, 8.0, L / 2, 0, 5.0, r])
+    else:
+        wires.append([n, 0, 0, 0, 0, 0, L / 2, r])
+        wires.append([rng.randrange(4, 8), L / 3, 0, 0, L / 3, 0, L / 2.5, r])
+    npl = sum(w[0] - 1 for w in wires)
+    sources = [[rng.choice(['1', '1+0.5j', '2']), rng.randrange(0, npl)]]
+    loads = []
+    if rng.random() < 0.4:
+        loads.append([rng.choice(['50+3j', '10-100j']), rng.randrange(0, npl)])
+    skin = []
+    sig = []
+    if rng.random() < 0.4:
+        s = rng.choice([5.8e7, 1e6, 1e5])
+        skin.append([s, rng.randrange(len(wires))])
+        sig.append(s)
+    m = Model()
+    m.length = L
+    m.radii = [r]
+    m.skin_sigma = sig
+    m.geo = [dict(kind='wire', nseg=w[0], r=r, tag=None) for w in wires]
+    pool, probes = gen_pool(rng, m)
+    fars = [gen_far(rng) for _ in range(rng.choice([1, 2]))]
+    nears = [gen_near(rng, m) for _ in range(rng.choice([0, 1]))]
+    ops = gen_api_ops(rng, len(pool), len(fars), len(nears), maxops)
+    feats = ['direct_builder']
+    if loads:
+        feats.append('load_impedance')
+    if skin:
+        feats.append('load_skin_c')
+    return dict(kind='api', builder='direct',
+                direct=dict(wires=wires, ground=ground, sources=sources, loads=loads, skin=skin),
+                argv=[], pool=pool, fars=fars, nears=nears, ops=ops, template='direct_' + t,
+                env='ideal' if ground else 'free', features=feats, probes=probes,
+                npulses=npl + 2 * len(wires))
